@@ -167,7 +167,12 @@ func drawFilterTree(t *core.Tape, ts *world.TypeSpec, depth int, flags map[strin
 			kids[i] = drawFilterTree(t, ts, depth+1, flags)
 		}
 
-		return map[string]interface{}{"o": []string{"and", "or"}[t.Draw(2)], "v": kids}
+		node := map[string]interface{}{"o": []string{"and", "or"}[t.Draw(2)], "v": kids}
+		if t.Bool(1, 4) {
+			node["c"] = "coll" // a collation may sit on any node
+		}
+
+		return node
 	}
 
 	f := "x"
@@ -417,8 +422,37 @@ func snapshot(u *jsonapi.URL) string {
 		}
 	}
 
-	fb, _ := json.Marshal(u.Params.Filter)
-	fmt.Fprintf(&sb, " filterlabel=%q filter=%s", u.Params.FilterLabel, fb)
+	fmt.Fprintf(&sb, " filterlabel=%q filter=%s", u.Params.FilterLabel, filterText(u.Params.Filter))
+
+	return sb.String()
+}
+
+// filterText renders a filter tree by walking it (not through its own JSON
+// marshaling, which a tree under test may have customised).
+func filterText(f *jsonapi.Filter) string {
+	if f == nil {
+		return "<nil>"
+	}
+
+	var sb strings.Builder
+
+	fmt.Fprintf(&sb, "{f=%q o=%q c=%q v=", f.Field, f.Op, f.Col)
+
+	switch v := f.Val.(type) {
+	case []*jsonapi.Filter:
+		sb.WriteString("[")
+
+		for _, k := range v {
+			sb.WriteString(filterText(k))
+		}
+
+		sb.WriteString("]")
+	default:
+		b, _ := json.Marshal(v)
+		sb.Write(b)
+	}
+
+	sb.WriteString("}")
 
 	return sb.String()
 }
